@@ -30,6 +30,9 @@ class RSim(mosaik_api_v3.Simulator):
         f = self.fault
         if f and f[0] == kind and self.nreq[kind] == f[1]:
             if f[2] == 'exit': os._exit(3)
+            if f[2] == 'close':
+                # the connection to mosaik closes while the process keeps running (a hung simulator that lost its socket)
+                os.closerange(3, 64); time.sleep(8); os._exit(4)
             if f[2] == 'raise': raise RuntimeError('injected fault')
             if f[2].startswith('badreply'):
                 self.nreq[kind] += 1; return True        # (the simulator stays alive; its reply is what is wrong)
